@@ -223,4 +223,4 @@ m('c18-pop-not-in-finally', 'C18', P, "        try:\n            yield None\n   
 m('c18-current-is-bottom', 'C18', P, "            return PROCESS_STACK.get()[-1]", "            return PROCESS_STACK.get()[0]", 'fire', 'current')
 m('c18-step-executes-directly', 'C18', P, "                next_state = await self._run_task(self._state.execute)", "                next_state = await utils.ensure_coroutine(self._state.execute)()", 'fire', 'Running.execute')
 m('c18-silent-scope-renamed-local', 'C18', P, "        coro = utils.ensure_coroutine(callback)\n        with self._process_scope():\n            result = await coro(*args, **kwargs)", "        fn = utils.ensure_coroutine(callback)\n        with self._process_scope():\n            result = await fn(*args, **kwargs)", 'silent')
-m('c18-stack-set-elsewhere', 'C18', P, '        """Common initialisation logic, after create or load, goes here.\n', '        """Common initialisation logic, after create or load, goes here.\n        PROCESS_STACK.set([self])\n', 'fire', 'init')
+m('c18-stack-set-elsewhere', 'C18', P, "        self._cleanups = []  # a list of functions to be ran on terminated\n", "        self._cleanups = []  # a list of functions to be ran on terminated\n        PROCESS_STACK.set([self])\n", 'fire', 'init')
